@@ -219,3 +219,18 @@ PROPS["C09"] = Spec(
     bounds={"quick": "<=8 tasks, 2-14 ops, 4x2500", "thorough": "2-24 ops, 16x20000"},
     assumptions=COMMON_ASSUMPTIONS,
 )
+
+PROPS["C14"] = Spec(
+    engine="harness.engines.compconfig", quick_cases=1500, thorough_cases=12000,
+    rule="8 spec-driven component classes (reachable as class objects, `module:attr` references and real entry points) whose "
+    "constructors call add_component() for 0-3 children with generated kwargs (scalars, lists, None, nested dicts) and types "
+    "spelled as class / reference / entry point / omitted (alias `epN` or `epN/name`), plus a generated external `components` "
+    "tree that overrides scalars, extends nested dicts, overrides types, adds config-only children ({...} and None) to depth 3 "
+    "(thorough 4); every component publishes marker resources in prepare() and/or start() under `default` or explicit names; "
+    "oracle: constructor kwargs == reference deep merge(hard-coded, external) minus type/components for every path, tree of "
+    "(path, class) == reference expansion, resource names follow the alias remapping rule, the configuration object is unchanged "
+    "(deep comparison) and a second start_component with the same object builds the same tree; non-trivial = (depth>=2 and a key "
+    "holding dicts on both sides) or a config-only child with its own components",
+    bounds={"quick": "8 classes, depth<=3, 4x1500", "thorough": "depth<=4, 16x12000"},
+    assumptions=COMMON_ASSUMPTIONS + ["entry points come from harness/fakedist/verif_c14-0.0.dist-info through importlib.metadata"],
+)
